@@ -118,6 +118,7 @@ func cmdLoadHist(args []string) {
 	vp := fs.String("vectors", "", "histories json")
 	intro := fs.Bool("intro", false, "compare the introspection view after steps that carry one (C17)")
 	offender := fs.Bool("offender", false, "check that the error of a refused load names the model's offender (single-defect documents only)")
+	requests := fs.Bool("requests", false, "C16: ask a request set derived from the schema after every load (root resolver echoing the arguments) and compare the final answers with those of a root that loaded the same definitions as one document")
 	_ = fs.Parse(args)
 	var hs []History
 	vh.ReadJSON(*vp, &hs)
@@ -125,6 +126,11 @@ func cmdLoadHist(args []string) {
 	for hi := range hs {
 		h := &hs[hi]
 		root := newRootFor(hi, *intro)
+		if *requests {
+			root = ggql.NewRoot(map[string]interface{}{})
+			root.AnyResolver = &echoAny{}
+			ggql.Sort = true
+		}
 		key := ""
 		failedThenOK := false
 		sawFail := false
@@ -205,6 +211,26 @@ func cmdLoadHist(args []string) {
 				if d, _ := r["data"].(map[string]interface{}); d == nil || d["__type"] != nil || r["errors"] != nil {
 					cs["aspect"] = "intro"
 					rep.Mismatch(vh.Mismatch{Case: cs, Step: si + 1, What: fmt.Sprintf("intro: __type on an unknown name is not null: %v", r)})
+				}
+			}
+			if *requests && err == nil && len(diffs) == 0 {
+				answers := askAll(root) // (asked after every load: a root that is used between the loads must end the same)
+				if si == len(h.Hist)-1 && len(h.Hist) > 1 {
+					var all []sch.Def
+					for k := range h.Hist {
+						all = append(all, h.Hist[k].Doc...)
+					}
+					one := ggql.NewRoot(map[string]interface{}{})
+					one.AnyResolver = &echoAny{}
+					if oerr := load(one, all); oerr == nil {
+						ref := askAll(one)
+						rep.Class("requests")
+						if strings.Join(ref, "\n") != strings.Join(answers, "\n") {
+							cs["aspect"] = "requests"
+							rep.Mismatch(vh.Mismatch{Case: cs, Step: si + 1, What: "requests: the root answers " + strings.Join(answers, " | ") +
+								" ; a root that loaded the same definitions as one document answers " + strings.Join(ref, " | ")})
+						}
+					}
 				}
 			}
 			if len(diffs) > 0 {
@@ -329,6 +355,19 @@ func cmdRoundTrip(args []string) {
 			bad("accept", fmt.Sprintf("the document is refused: %v", err))
 			continue
 		}
+		// a history: the following documents are loaded into the same root before it prints
+		later := false
+		for _, more := range hs[hi].Hist[1:] {
+			t2, _ := sch.DocText(expandDefs(more.Doc))
+			if err := root1.ParseString(t2); err != nil {
+				bad("accept", fmt.Sprintf("the document %q of the history is refused: %v", t2, err))
+				later = true
+			}
+			cs["document"] = cs["document"].(string) + "\n---- then ----\n" + t2
+		}
+		if later {
+			continue
+		}
 		// "every schema a root accepts": the root may have refused documents since. Loads that are refused after having
 		// added types and directives (an undefined reference, a validation error, a duplicate) leave the schema - and
 		// therefore what is printed - as it was
@@ -341,7 +380,9 @@ func cmdRoundTrip(args []string) {
 			}
 		}
 		c1 := sch.ReadBack(root1)
-		if hs[hi].Tag != "numeric" { // numeric named points are compared through the round trip only
+		// (numeric named points, and directive argument values of input object type - which ggql completes in place with the
+		// input fields' defaults - are compared through the round trip only)
+		if hs[hi].Tag != "numeric" && hs[hi].Tag != "dirinput" {
 			if ds := sch.Diff(exp, c1); len(ds) > 0 {
 				bad("read", "the loaded schema differs from the document: "+strings.Join(ds, "; "))
 				continue
@@ -369,7 +410,7 @@ func cmdRoundTrip(args []string) {
 				bad("fixpoint", fmt.Sprintf("%s: printing again gives a different text:\n--- first:\n%s\n--- second:\n%s", mode, p1, p2))
 			}
 		}
-		if *gen != "" && hi%7 == 0 {
+		if *gen != "" && hi%7 == 0 && len(hs[hi].Hist) == 1 {
 			// ggqlgen -w rewrites the file with the printed form; -e embeds it in a Go file
 			f := filepath.Join(tmp, fmt.Sprintf("s%d.graphql", hi))
 			_ = os.WriteFile(f, []byte(text), 0600)
@@ -472,6 +513,104 @@ func (a *appAny) Resolve(obj interface{}, field *ggql.Field, args map[string]int
 func (a *appAny) Len(list interface{}) int { return 0 }
 func (a *appAny) Nth(list interface{}, i int) (interface{}, error) {
 	return nil, fmt.Errorf("not an application list")
+}
+
+// echoAny is a root resolver that answers every String field with a rendering of the arguments it was handed (sorted),
+// every other leaf with nil and every composite with a placeholder object: what a request resolves to then depends
+// on the schema only (argument defaults, input field defaults, coercion).
+type echoAny struct{}
+
+func renderArg(v interface{}) string {
+	switch t := v.(type) {
+	case map[string]interface{}:
+		keys := make([]string, 0, len(t))
+		for k := range t {
+			keys = append(keys, k)
+		}
+		sort.Strings(keys)
+		parts := []string{}
+		for _, k := range keys {
+			parts = append(parts, k+":"+renderArg(t[k]))
+		}
+		return "{" + strings.Join(parts, ",") + "}"
+	case []interface{}:
+		parts := []string{}
+		for _, e := range t {
+			parts = append(parts, renderArg(e))
+		}
+		return "[" + strings.Join(parts, ",") + "]"
+	}
+	return fmt.Sprintf("%v", v)
+}
+
+func (a *echoAny) Resolve(obj interface{}, field *ggql.Field, args map[string]interface{}) (interface{}, error) {
+	switch field.Name {
+	case "query", "mutation", "subscription":
+		return map[string]interface{}{"app": true}, nil
+	}
+	return "args=" + renderArg(args), nil
+}
+func (a *echoAny) Len(list interface{}) int { return 0 }
+func (a *echoAny) Nth(list interface{}, i int) (interface{}, error) {
+	return nil, fmt.Errorf("not an application list")
+}
+
+// requestSet derives requests from the query root type of the loaded schema: every String field with every argument
+// left out, and with `{}` / `[{}]` written for the arguments of input object / list of input object type.
+func requestSet(root *ggql.Root) []string {
+	var out []string
+	sc := root.VerifSchema()
+	if sc == nil {
+		return nil
+	}
+	qf := sc.GetField("query")
+	if qf == nil {
+		return nil
+	}
+	qt, _ := qf.Type.(*ggql.Object)
+	if qt == nil {
+		return nil
+	}
+	var plain, filled []string
+	for _, fd := range qt.Fields() {
+		if fd.Type == nil || fd.Type.Name() != "String" {
+			continue
+		}
+		plain = append(plain, fd.Name())
+		var as []string
+		for _, a := range fd.Args() {
+			tn := a.Type.Name()
+			base := strings.Trim(tn, "[]!")
+			if _, ok := root.GetType(base).(*ggql.Input); ok {
+				if strings.HasPrefix(tn, "[") {
+					as = append(as, a.Name()+": [{}]")
+				} else {
+					as = append(as, a.Name()+": {}")
+				}
+			}
+		}
+		if len(as) > 0 {
+			filled = append(filled, "z_"+fd.Name()+": "+fd.Name()+"("+strings.Join(as, ", ")+")")
+		}
+	}
+	if len(plain) > 0 {
+		out = append(out, "{ "+strings.Join(plain, " ")+" }")
+	}
+	if len(filled) > 0 {
+		out = append(out, "{ "+strings.Join(filled, " ")+" }")
+	}
+	return out
+}
+
+func askAll(root *ggql.Root) []string {
+	var out []string
+	for _, q := range requestSet(root) {
+		res := root.ResolveString(q, "", nil)
+		var sb strings.Builder
+		_ = ggql.WriteJSONValue(&sb, res, -1)
+		out = append(out, q+" => "+sb.String())
+	}
+	return out
 }
 
 // newRootFor rotates the strategy the application would use for its own data (C17: the
